@@ -154,7 +154,8 @@ def main():
         if p_ != pid or cls in known_seen:
             continue
         wpath = os.path.join(VERIF, info["witness"]) if info.get("witness") else None
-        if wpath and os.path.exists(wpath) and hasattr(prop, "check_case") and import_error is None:
+        if wpath and os.path.exists(wpath) and hasattr(prop, "check_case") and import_error is None \
+                and getattr(prop, "WITNESS_REPLAY", True):
             try:
                 ok, what = prop.check_case(json.load(open(wpath))["case"])
                 if not ok:
